@@ -181,6 +181,13 @@ class P:
         for proto in ("ipfix", "sflow"):
             line = self.case(proto, gens.get(proto), rng, repeat_to=1150, force_mirror=True)
             out.append(line)
+            # ... and once more with ONE worker on one P (every buffer handed back is then seen again by the receive loop and by the
+            # inspection of the pool afterwards)
+            line = self.case(proto, gens.get(proto), rng, repeat_to=1100, force_mirror=True)
+            c = self.cj[line]
+            c["workers"], c["procs"] = 1, 1
+            self.nworkers[line] = 1
+            out.append(line)
         # the OTHER pipelines' outgoing queues are full (their producers have stalled): this pipeline publishes as if they were not there
         for proto in ("ipfix", "nf9", "nf5", "sflow"):
             line = self.case(proto, gens.get(proto), rng)
@@ -232,7 +239,8 @@ class P:
                 pubs = [re.sub(rb'"ColTime":\d+\}$', b'"ColTime":0}', bytes.fromhex(x)).hex() for x in pubs]
             if self.nworkers[l] > 1:
                 pubs = sorted(pubs)
-            out.append("PUB %s UDP=%d DEC=%d" % (",".join(pubs), r["udp_count"], r["decoded_count"]) + (" SHORTBUF=%d" % r["short_buffers"] if r.get("short_buffers") else ""))
+            out.append("PUB %s UDP=%d DEC=%d" % (",".join(pubs), r["udp_count"], r["decoded_count"]) + (" DUPBUF=%d" % r["duplicate_buffers"] if r.get("duplicate_buffers") else "")
+                       + (" SHORTBUF=%d" % r["short_buffers"] if r.get("short_buffers") else ""))
         return out
 
     def post(self, lines, impl, model):
@@ -253,10 +261,16 @@ class P:
     def judge(self, line, impl, model):
         if impl.startswith("DRIVER-ERROR"):
             return impl
-        short = None
+        short = dup = None
         if " SHORTBUF=" in impl:
             impl, short = impl.rsplit(" SHORTBUF=", 1)
+        if " DUPBUF=" in impl:
+            impl, dup = impl.rsplit(" DUPBUF=", 1)
         v = self.judge2(line, impl, model)
+        if v is None and dup and self.id == "C12":
+            return ("after this sequence the same receive buffer is in the pool %s time(s) more than once (it was handed back while the datagram in it was "
+                    "still being processed, and again afterwards): the next datagrams are received into memory that another datagram still occupies, so "
+                    "what is published for one of them is not what its own octets decode to" % dup)
         if v is None and short and self.id == "C12":
             return ("after this sequence the receive-buffer pool holds %s buffer(s) shorter than max-udp-size (%d): the receive loop reads the next "
                     "datagrams into them, so a later longer datagram is truncated and what is published for it is not what its own octets decode to"
